@@ -38,13 +38,16 @@ Definition set_tab (s : st) (et : nat) (v : list (Z * Z)) : st :=
 
 (* _set_multiple_entries on net.group (create/_utils.py:371 drops the all-null columns of the new rows before the concat):
    null reference_column rows appended to a non-empty table carry NaN, NaN of older rows is turned into None *)
-(* an all-null object column that holds a None comes out of the concat as None throughout; with a name somewhere in it,
-   or with NaN only, the old values are kept *)
-Definition to_none (g : list grow) : bool :=
-  forallb (fun r => rc_null (grc r)) g && existsb (fun r => match grc r with RNone => true | _ => false end) g.
+(* an all-null object column comes out of the concat uniformly filled with the null kind (None / NaN) of its FIRST row;
+   with a name somewhere in it the old values are kept *)
+Definition uniform (g : list grow) : list grow :=
+  match g with
+  | [] => g
+  | r0 :: _ => if forallb (fun r => rc_null (grc r)) g
+               then map (fun r => {| gid := gid r; gty := gty r; gmem := gmem r; grc := grc r0 |}) g else g
+  end.
 Definition add_rows (g : list grow) (new : list grow) : list grow :=
-  (if to_none g
-   then map (fun r => {| gid := gid r; gty := gty r; gmem := gmem r; grc := RNone |}) g else g) ++
+  uniform g ++
   map (fun r => {| gid := gid r; gty := gty r; gmem := gmem r;
                    grc := match grc r, g with RName, _ => RName | _, [] => RNone | _, _ => RNaN end |}) new.
 
@@ -95,11 +98,8 @@ Definition attach_old (s : st) (g : Z) (et : nat) (elm : list Z) : result st :=
       if exist_ok s et elm false then
         Ok (set_grp s (map (fun r => if (gid r =? g) && Nat.eqb (gty r) et
                                      then {| gid := gid r; gty := gty r;
-                                             gmem := gmem r ++ map (fun _ => garbage) (zsort_uniq elm);
-                                             grc := if to_none (grp s) then RNone else grc r |}
-                                     else {| gid := gid r; gty := gty r; gmem := gmem r;
-                                             grc := if to_none (grp s) then RNone else grc r |})
-                                (grp s)))
+                                             gmem := gmem r ++ map (fun _ => garbage) (zsort_uniq elm); grc := grc r |}
+                                     else r) (uniform (grp s))))
       else Err "UserWarning"
     | RName => Err "Unsupported"                             (* index -> name conversion: not modelled *)
     end
